@@ -114,8 +114,6 @@ Section Dir3.
   Proof.
     intros Hp Eext Elen Eroot Hrr Hq Htb Hnew Hver. rewrite Eext, Elen.
     pose proof (prr_v dt s Hwf) as Hv.
-    assert (Hpos : In p (mrr_dir_positions t)).
-    { apply (mrr_positions_complete dt s Hdt Hwf). unfold mrr_is_dir_at. rewrite Hp. reflexivity. }
     exists (snd (mrr_dir_chunk v dt t L p)).
     (* the bytes *)
     assert (Hread : Master.ms_img_read img' (Master.ms_ext_at DB p) dl = Some (snd (mrr_dir_chunk v dt t L p)))
